@@ -118,6 +118,20 @@ theorem C18_lex_of_text_behind_comment_or_spaces (s : String) :
   ⟨rfl, fun c rest hc hr => lexL_leading_comment c rest hc hr,
    fun n rest hr hn => lexL_leading_spaces n rest hr hn⟩
 
+/-- **Line-ending style at the level of `lex`**: a text that begins with LF, with CR LF or with a lone
+CR (the rest then not starting with LF) has the token kinds NEWLINE followed by the kinds of the rest. -/
+theorem C18_lex_line_end_styles_same_kinds (rest : List Char) (hr : rest = [] ∨ ∃ y u, rest = y :: u ∧ y ≠ '\n') :
+    (lexL ('\n' :: rest)).map (·.kind) = .NEWLINE :: (lexL rest).map (·.kind) ∧
+    (lexL ('\r' :: '\n' :: rest)).map (·.kind) = .NEWLINE :: (lexL rest).map (·.kind) ∧
+    (lexL ('\r' :: rest)).map (·.kind) = .NEWLINE :: (lexL rest).map (·.kind) :=
+  lexL_leading_eol_kinds rest hr
+
+/-- **Scanning is compositional**: what was emitted before a position is a prefix of the result, so
+each of the theorems above applies at ANY token boundary of a text, not only at its start. -/
+theorem C18_scanner_compositional (fuel : Nat) (s : List Char) (p : Pos) (acc : List Tok) :
+    lexGo lexRules fuel s p acc = acc.reverse ++ lexGo lexRules fuel s p [] :=
+  lexGo_acc lexRules fuel s p acc
+
 /-- non-vacuity: a comment with quotes, hashes and non-ASCII text before a CRLF -/
 example : (∀ x ∈ "\"q0\" # é | 1".toList, x ≠ '\n' ∧ x ≠ '\r') ∧
     (("\r\nG | 0".toList = []) ∨ ∃ x t, "\r\nG | 0".toList = x :: t ∧ (x = '\n' ∨ x = '\r')) := by
